@@ -13,7 +13,7 @@ SHARD = 60
 RULE = ("string_generator: first N <= 800 values with skip collections given as list or set (members among the "
         "first 800 words, incl. 'A', 'Z', 'AA', 'ZZ'); int_generator; pairwise; new_track on annotations whose segment "
         "already holds generated names ('0','1',...), the candidate, or prefixed names; up to seven tracks on one segment from pools of names that parse to the same integers ('0' / '00', '1' / '01', 'T0' / 'T00'); prefixes with format characters ('%', '%s', 'T%d', '{}') in 15%; to_annotation with each "
-        "generator kind; random_subsegment refusing a fixed duration that exceeds the segment by less than a microsecond; random_subsegment with np.random.random replaced by a stub returning k/1024 (so the model "
+        "generator kind, incl. caller-owned iterators that run out of names before the segments do (refused, never an incomplete annotation); random_subsegment refusing a fixed duration that exceeds the segment by less than a microsecond; random_subsegment with np.random.random replaced by a stub returning k/1024 (so the model "
         "computes the same value) and random_segment under 5 seeds; non-trivial = skip non-empty / candidate taken / "
         "min_duration given")
 F = 1 << 20
@@ -59,7 +59,8 @@ def generate(rng, tier):
                           "cand": rng.choice([None, "0", "1", "x", 0, "fresh", "A", ""]),
                           "prefix": rng.choice([None, None, "T", ""] if rng.random() < 0.85 else ["%", "%%", "100%", "%s", "T%d", "a b", "{}"])})
         for _ in range(n):
-            g = rng.choice([["string"], ["int"], ["list", [rng.choice(["g%d" % i, 100 + i]) for i in range(14)]]])
+            g = rng.choice([["string"], ["int"], ["list", [rng.choice(["g%d" % i, 100 + i]) for i in range(14)]],
+                            ["list", [rng.choice(["g%d" % i, 100 + i]) for i in range(rng.randrange(0, 5))]]])
             cases.append({"k": "toann", "regime": regime, "segs": gen.rand_timeline(rng, regime), "gen": g})
     for _ in range(n * 5):
         s = gen.rand_segment(rng, "K0", span=30, maxlen=20, allow_empty=0.05)
@@ -124,7 +125,12 @@ def run(case):
         try:
             t = mk_tl(tb, case["segs"], uri="u")
             g = case["gen"]
-            a = t.to_annotation(generator=iter(list(g[1])) if g[0] == "list" else g[0], modality="m")
+            try:
+                a = t.to_annotation(generator=iter(list(g[1])) if g[0] == "list" else g[0], modality="m")
+            except (StopIteration, RuntimeError) as exc:
+                # the caller's iterator ran out of names
+                assert g[0] == "list" and len(g[1]) < len(t), "to_annotation raised %r with enough names" % (exc,)
+                return {"obs": None}
             assert a.uri == "u" and a.modality == "m"
             labels = [l for _, _, l in a.itertracks(yield_label=True)]
             assert len(set(map(repr, labels))) == len(labels)
@@ -193,7 +199,7 @@ def encode(case, o):
         eps = REGIMES[case["regime"]]["eps"]
         g = case["gen"]
         gg = "GString" if g[0] == "string" else "GInt" if g[0] == "int" else f"(GList {enc_names(g[1])})"
-        return f"KToAnn {e.z(eps)} {e.segs(case['segs'])} {gg} {enc_triples(o['obs'])}"
+        return f"KToAnn {e.z(eps)} {e.segs(case['segs'])} {gg} " + ("None" if o["obs"] is None else f"(Some {enc_triples(o['obs'])})")
     if k == "subseg":
         return (f"KSubseg 0 {e.seg(case['s'])} {e.z(case['dur'])} {e.opt(case['min'], e.z)} {e.z(case['k1'])} "
                 f"{e.z(case['k2'])} {e.opt(o['obs'], e.seg)}")
